@@ -355,4 +355,11 @@ def rm_no_process_lifetime_results(ctx: Ctx) -> None:
     state_rule(ctx)
 
 
-RULES = [r1_record_kinds, r2_fields, r3_delta_and_order, r4_plumbing, rb_binding_agreement, rm_no_process_lifetime_results]
+def ru_names_bound(ctx: Ctx) -> None:
+    """a local read but never bound raises NameError for every input that reaches the statement (shared rule, names.py)"""
+    from ..names import names_rule
+
+    names_rule(ctx)
+
+
+RULES = [r1_record_kinds, r2_fields, r3_delta_and_order, r4_plumbing, rb_binding_agreement, rm_no_process_lifetime_results, ru_names_bound]
